@@ -16,6 +16,7 @@ EXPLANATION = (
     "does not use a dotted path as a flat subscript; (c) groupby queries the cursor's own filter, combined by $and with the "
     "$exists pre-filter when no default is given (never merged into one mapping, where keys would collide); (d) the "
     "command line value parser tries int before float on the raw token; parse_filter handles str / Mapping / iterable."
+    ' The string form of a filter is tokenised at white space only (no second round of quote / escape processing).'
 )
 UNDECIDED = "Equivalence of all spellings, CLI casting for every token and exactness of the partition are value-level and not decided."
 
